@@ -50,6 +50,8 @@ pub struct Violation {
 
 #[derive(Default)]
 pub struct InnerScript {
+    /// per service kind: at most this many calls inside + reserved (None = unlimited)
+    pub capacity: HashMap<u8, i64>,
     /// behaviour of the n-th call for (svc, req id)
     pub by_req: HashMap<(u8, u32), Vec<Behaviour>>,
     /// behaviour of the n-th call on service `svc` overall (used when by_req has no entry)
@@ -79,6 +81,10 @@ pub struct World {
     pub calls_by_req: HashMap<(u8, u32), u32>,
     pub calls_by_svc: HashMap<u8, u32>,
     pub ready_polls: HashMap<u8, u32>,
+    /// capacity mode of the inner stub (like tower's ConcurrencyLimit): slots reserved by
+    /// instances that answered Ready and have not called yet, and the wakers of waiting callers
+    pub reserved: [i64; 4],
+    pub ready_waiters: Vec<std::task::Waker>,
     pub faults: BTreeMap<&'static str, u64>,
     pub probes: BTreeMap<&'static str, u64>,
     pub violations: Vec<Violation>,
@@ -113,6 +119,8 @@ impl World {
             calls_by_req: HashMap::new(),
             calls_by_svc: HashMap::new(),
             ready_polls: HashMap::new(),
+            reserved: [0; 4],
+            ready_waiters: Vec::new(),
             faults: BTreeMap::new(),
             probes: BTreeMap::new(),
             violations: Vec::new(),
@@ -154,6 +162,11 @@ pub fn try_with(f: impl FnOnce(&mut World)) {
             f(&mut g)
         }
     })
+}
+
+/// Like `try_with`, with a result (None if the world is borrowed, e.g. during tear-down).
+pub fn try_with_ret<T>(f: impl FnOnce(&mut World) -> T) -> Option<T> {
+    WORLD.with(|w| w.try_borrow_mut().ok().map(|mut g| f(&mut g)))
 }
 
 pub fn is_active() -> bool {
